@@ -27,7 +27,14 @@
 #define protected public
 #include "DensitySubGridCreator.hpp"
 #include "HomogeneousDensityFunction.hpp"
+#include "MemorySpace.hpp"
 #include "PhotonPacket.hpp"
+#include "PhotonTraversalTaskContext.hpp"
+#include "PhotonTraversalThreadContext.hpp"
+#include "PrematureLaunchTaskContext.hpp"
+#include "Task.hpp"
+#include "TaskQueue.hpp"
+#include "ThreadSafeVector.hpp"
 #include "TravelDirections.hpp"
 #undef private
 #undef protected
@@ -560,6 +567,435 @@ static Outcome shoot(Creator &gc, const PacketSpec &ps, uint64_t pick, const Box
   return o;
 }
 
+// ------------------------------------------------------------------------------------------------
+// the split grid is traversed by the REAL task code, driven from one thread as the photon loop of
+// TaskBasedIonizationSimulation drives it: real MemorySpace (slots are recycled), real
+// ThreadSafeVector<Task>, real TaskQueues, real PhotonTraversalTaskContext::execute (+ its
+// PhotonTraversalThreadContext), real PrematureLaunchTaskContext::execute when the queues run dry.
+struct PacketFinal {
+  bool seen;
+  CoordinateVector<> pos;
+  double tau_left;
+  long handovers;
+};
+
+struct RealRun {
+  Creator &gc;
+  MemorySpace buffers;
+  ThreadSafeVector< Task > tasks;
+  std::vector< TaskQueue * > queues;
+  TaskQueue shared;
+  AtomicValue< uint_fast32_t > ndone;
+  PhotonTraversalTaskContext< DensitySubGrid > ctx;
+  PrematureLaunchTaskContext< DensitySubGrid > premature;
+  ThreadContext *tctx;
+  size_t pool;
+  long ninjected, ntasks, npremature, noverflow_hint;
+
+  RealRun(Creator &g, size_t poolsize)
+      : gc(g), buffers(poolsize), tasks(poolsize, "Tasks"), shared(poolsize, "shared"), ndone(0),
+        ctx(buffers, g, tasks, ndone, nullptr, false), premature(buffers, g, tasks, queues, shared),
+        pool(poolsize), ninjected(0), ntasks(0), npremature(0), noverflow_hint(0) {
+    queues.push_back(new TaskQueue(poolsize, "queue0"));
+    tctx = ctx.get_thread_context();
+    reset_subgrids();
+  }
+  ~RealRun() {
+    delete tctx;
+    delete queues[0];
+  }
+  // what the simulation does before every photon loop
+  void reset_subgrids() {
+    for (size_t i = 0; i < gc._subgrids.size(); ++i) {
+      for (int d = 0; d < TRAVELDIRECTION_NUMBER; ++d)
+        gc._subgrids[i]->set_active_buffer(d, NEIGHBOUR_OUTSIDE);
+      gc._subgrids[i]->set_owning_thread(0);
+      gc._subgrids[i]->set_largest_buffer(TRAVELDIRECTION_NUMBER, 0);
+    }
+  }
+  // what SourceDiscretePhotonTaskContext does with a batch of new packets of one subgrid
+  void inject(size_t subgrid, const std::vector< PhotonPacket > &pk) {
+    size_t i = 0;
+    while (i < pk.size()) {
+      const size_t ib = buffers.get_free_buffer();
+      PhotonBuffer &b = buffers[ib];
+      b.set_subgrid_index(subgrid);
+      b.set_direction(TRAVELDIRECTION_INSIDE);
+      b.reset();
+      while (i < pk.size() && b.size() < PHOTONBUFFER_SIZE) {
+        const uint_fast32_t k = b.get_next_free_photon();
+        b[k] = pk[i++];
+      }
+      const size_t it = tasks.get_free_element();
+      Task &t = tasks[it];
+      t.set_type(TASKTYPE_PHOTON_TRAVERSAL);
+      t.set_subgrid(subgrid);
+      t.set_buffer(ib);
+      t.set_dependency(gc._subgrids[subgrid]->get_dependency());
+      queues[gc._subgrids[subgrid]->get_owning_thread()]->add_task(it);
+      ninjected += b.size();
+    }
+  }
+  size_t get_task() {
+    size_t t = queues[0]->get_task(tasks);
+    if (t == NO_TASK)
+      t = shared.get_task(tasks);
+    return t;
+  }
+  // the photon loop; `before(buffer)` / `after(slot, n)` observe the input buffer of every traversal task
+  template < class B, class A > bool pump(B before, A after, std::ostringstream &bad) {
+    uint_fast32_t tasks_to_add[TRAVELDIRECTION_NUMBER];
+    int_fast32_t queues_to_add[TRAVELDIRECTION_NUMBER];
+    long guard = 0;
+    size_t cur = get_task();
+    while (true) {
+      if (cur == NO_TASK) {
+        premature.execute();
+        ++npremature;
+        cur = get_task();
+        if (cur == NO_TASK)
+          break;
+      }
+      while (cur != NO_TASK) {
+        if (++guard > 20000000) {
+          bad << " task-loop-does-not-end";
+          return false;
+        }
+        if (buffers.get_number_of_active_buffers() + 2 * TRAVELDIRECTION_NUMBER + 2 > pool) {
+          bad << " harness-error:buffer-pool-too-small";
+          return false;
+        }
+        Task &task = tasks[cur];
+        const size_t ib = task.get_buffer();
+        const uint_fast32_t nin = buffers[ib].size();
+        if (task.get_type() != TASKTYPE_PHOTON_TRAVERSAL) {
+          bad << " unexpected-task-type(" << task.get_type() << ")";
+          return false;
+        }
+        if (!before(buffers[ib]))
+          return false;
+        task.start(0);
+        const uint_fast32_t nnew = ctx.execute(0, tctx, tasks_to_add, queues_to_add, task);
+        task.stop();
+        task.unlock_dependency();
+        tasks.free_element(cur);
+        ++ntasks;
+        // the input buffer was freed by execute(); its slot still holds the packets as interact() left them
+        after(buffers._memory_space._vector[ib], nin);
+        for (uint_fast32_t i = 0; i < nnew; ++i) {
+          if (queues_to_add[i] < 0)
+            shared.add_task(tasks_to_add[i]);
+          else
+            queues[queues_to_add[i]]->add_task(tasks_to_add[i]);
+        }
+        cur = get_task();
+      }
+    }
+    return true;
+  }
+};
+
+struct TraceEnv {
+  Box<> box;
+  CoordinateVector<> anchor, sides, cell;
+  CoordinateVector< bool > per;
+  CoordinateVector< int_fast32_t > nc, m;
+  double sigmaH, sigmaHe, hmean;
+};
+
+static PhotonPacket make_packet(const PacketSpec &ps, const TraceEnv &E, unsigned id) {
+  PhotonPacket photon;
+  photon.set_position(ps.pos);
+  photon.set_direction(ps.dir);
+  photon.set_target_optical_depth(ps.tau);
+  for (int ion = 0; ion < NUMBER_OF_IONNAMES; ++ion)
+    photon.set_photoionization_cross_section(ion, 0.25 * E.sigmaH * (ion + 1));
+  photon.set_photoionization_cross_section(ION_H_n, E.sigmaH);
+#ifdef HAS_HELIUM
+  photon.set_photoionization_cross_section(ION_He_n, E.sigmaHe);
+#endif
+  photon.set_energy(4.e15);
+  photon.set_weight(1.);
+  photon.set_type(PHOTONTYPE_PRIMARY);
+  photon.set_scatter_counter(id); // packet id (no scattering in these runs)
+  return photon;
+}
+
+// hand-over oracle on a packet waiting in an input buffer with direction `indir` of subgrid `t`: the
+// position interact() will start from is the same physical point, inside the subgrid, and the direction of
+// travel is compatible with the entry classification
+static void handover_oracle(const DensitySubGrid &t, const PhotonPacket &ph, int_fast32_t indir, size_t isub,
+                            const TraceEnv &E, std::ostringstream &bad) {
+  if (indir < 0 || indir >= TRAVELDIRECTION_NUMBER) {
+    bad << " input-buffer-has-invalid-direction(" << indir << ")";
+    return;
+  }
+  if (!TravelDirections::is_compatible_input_direction(ph.get_direction(), indir)) {
+    bad << " input-direction-incompatible-with-travel-direction(in=" << indir << ",subgrid=" << isub << ")";
+    return;
+  }
+  const CoordinateVector<> P = ph.get_position();
+  CoordinateVector<> local = P - t._anchor;
+  t.update_photon_position(indir, local);
+  const CoordinateVector<> Q = local + t._anchor;
+  for (int ax = 0; ax < 3; ++ax) {
+    const double tol = 1.e-12 * (std::fabs(E.anchor[ax]) + E.sides[ax]);
+    double best = std::fabs(Q[ax] - P[ax]);
+    if (E.per[ax])
+      best = std::min(best, std::min(std::fabs(Q[ax] - P[ax] - E.sides[ax]), std::fabs(Q[ax] - P[ax] + E.sides[ax])));
+    if (!(best <= tol))
+      bad << " hand-over-moves-the-packet(axis=" << ax << ",in=" << indir << ",to=" << isub << ")";
+    const double lo = t._anchor[ax], hi = t._anchor[ax] + t._cell_size[ax] * t._number_of_cells[ax];
+    double p = P[ax];
+    if (E.per[ax] && !(p >= lo - tol && p <= hi + tol))
+      p = (p > hi) ? p - E.sides[ax] : p + E.sides[ax];
+    if (!(p >= lo - tol && p <= hi + tol))
+      bad << " packet-handed-to-a-subgrid-that-does-not-contain-it(axis=" << ax << ",in=" << indir << ",to=" << isub << ")";
+  }
+}
+
+static PacketSpec draw_packet(Rng &rng, const TraceEnv &E, int boxkind) {
+  PacketSpec ps;
+  int kind = int(rng.below(boxkind == 0 ? 4 : 2));
+  if (kind == 3)
+    kind = 2;
+  ps.kind = kind;
+  if (kind == 0) {
+    for (int ax = 0; ax < 3; ++ax)
+      ps.pos[ax] = E.anchor[ax] + E.sides[ax] * rng.uni();
+    const double ct = 2. * rng.uni() - 1., st = std::sqrt(std::max(0., 1. - ct * ct)), ph = 2. * M_PI * rng.uni();
+    ps.dir = CoordinateVector<>(st * std::cos(ph), st * std::sin(ph), ct);
+  } else if (kind == 1) {
+    for (int ax = 0; ax < 3; ++ax)
+      ps.pos[ax] = E.anchor[ax] + E.sides[ax] * rng.uni();
+    ps.dir = CoordinateVector<>(0.);
+    ps.dir[rng.below(3)] = rng.below(2) ? 1. : -1.;
+  } else {
+    // lattice packets in a dyadic box: start at a cell centre or a (lower) cell corner, direction with
+    // dyadic components, so that edges and corners of cells and subgrids are hit exactly
+    const bool corner = rng.below(3) == 0;
+    for (int ax = 0; ax < 3; ++ax)
+      ps.pos[ax] = E.anchor[ax] + E.cell[ax] * (double(rng.below(E.nc[ax])) + (corner ? 0. : 0.5));
+    static const double comps[7] = {-1., 1., -1., 1., 0., 0.5, -2.};
+    do {
+      for (int ax = 0; ax < 3; ++ax)
+        ps.dir[ax] = comps[rng.below(7)];
+    } while (ps.dir[0] == 0. && ps.dir[1] == 0. && ps.dir[2] == 0.);
+  }
+  ps.tau = -std::log(1. - rng.uni()) * (rng.below(4) == 0 ? 4. : 1.) + 1.e-3;
+  return ps;
+}
+
+// a beam: many packets from one subgrid through (mostly) one face, so that the output buffer of that
+// face overflows (> PHOTONBUFFER_SIZE packets before it is launched)
+static void draw_beam(Rng &rng, const TraceEnv &E, const CoordinateVector< int_fast32_t > &ns, long count,
+                      std::vector< PacketSpec > &out) {
+  const int ax = int(rng.below(3));
+  const double sign = rng.below(2) ? 1. : -1.;
+  CoordinateVector<> lo, hi;
+  for (int a = 0; a < 3; ++a) {
+    const double sub = E.sides[a] / ns[a];
+    const long i = long(rng.below(ns[a]));
+    lo[a] = E.anchor[a] + (i + 0.3) * sub;
+    hi[a] = E.anchor[a] + (i + 0.7) * sub;
+  }
+  const double len = E.sides[ax];
+  for (long k = 0; k < count; ++k) {
+    PacketSpec ps;
+    ps.kind = 3;
+    for (int a = 0; a < 3; ++a)
+      ps.pos[a] = lo[a] + (hi[a] - lo[a]) * rng.uni();
+    CoordinateVector<> d(0.08 * (rng.uni() - 0.5), 0.08 * (rng.uni() - 0.5), 0.08 * (rng.uni() - 0.5));
+    d[ax] = sign;
+    const double nrm = std::sqrt(d[0] * d[0] + d[1] * d[1] + d[2] * d[2]);
+    ps.dir = CoordinateVector<>(d[0] / nrm, d[1] / nrm, d[2] / nrm);
+    // far enough to cross a few subgrid faces
+    ps.tau = (0.5 + 2.5 * rng.uni()) * E.sigmaH * len * 0.6 + 1.e-3;
+    out.push_back(ps);
+  }
+}
+
+// the state a hydro step / an ionization step leaves behind: new density, neutral fractions, temperature of a
+// cell, as a function of the GLOBAL cell
+static void evolve_cell(uint64_t seed, long gi, IonizationVariables &v, bool keep_opaque) {
+  Rng r(seed ^ (uint64_t(gi) * 0x9E3779B97F4A7C15ull));
+  r.next();
+  const double f = keep_opaque ? 0.7 + 0.9 * r.uni() : 0.3 + 1.9 * r.uni();
+  v.set_number_density(v.get_number_density() * f);
+  v.set_ionic_fraction(ION_H_n, (keep_opaque ? 0.5 : 0.05) + (keep_opaque ? 0.5 : 0.95) * r.uni());
+#ifdef HAS_HELIUM
+  v.set_ionic_fraction(ION_He_n, 0.6 * r.uni());
+#endif
+  v.set_temperature(4000. + 12000. * r.uni());
+}
+
+struct PhaseStats {
+  long nabs, nesc, nhand, ntasks, npremature, noverflow;
+  double maxpos, maxtau, maxrel;
+  long ncellcmp, nnonzero;
+};
+
+// trace the packets through the split grid with the real task code (in rounds: every round is injected
+// completely, then the loop runs until nothing is left) and one by one through the undivided block; compare
+static void run_phase(Creator &split, Creator &whole, const TraceEnv &E, const std::vector< std::vector< PacketSpec > > &rounds,
+                      const std::vector< uint64_t > &picks, bool with_copies, std::vector< long > &dirhist,
+                      PhaseStats &S, std::ostringstream &bad, const char *phase) {
+  const size_t n = split.number_of_original_subgrids();
+  const size_t ntot = split._subgrids.size();
+  size_t npk = 0;
+  for (auto &r : rounds)
+    npk += r.size();
+  const size_t pool = TRAVELDIRECTION_NUMBER * ntot + npk / 50 + 64;
+  RealRun run(split, pool);
+  std::vector< PacketFinal > fin(npk);
+  for (auto &f : fin) {
+    f.seen = false;
+    f.handovers = -1;
+  }
+  unsigned id = 0;
+  std::vector< PacketSpec > all;
+  for (size_t ir = 0; ir < rounds.size() && bad.str().empty(); ++ir) {
+    // group the packets of the round by the family member they start in
+    std::map< size_t, std::vector< PhotonPacket > > by_sub;
+    for (const PacketSpec &ps : rounds[ir]) {
+      auto first = split.get_subgrid(ps.pos);
+      size_t cur = first.get_index();
+      auto cp = first.get_copies();
+      std::vector< size_t > fam(1, cur);
+      if (cp.first != split.all_end())
+        for (auto it = cp.first; it != cp.second; ++it)
+          fam.push_back(it.get_index());
+      cur = fam[picks[id] % fam.size()];
+      by_sub[cur].push_back(make_packet(ps, E, id));
+      all.push_back(ps);
+      ++id;
+    }
+    for (auto &kv : by_sub)
+      run.inject(kv.first, kv.second);
+    auto before = [&](const PhotonBuffer &b) {
+      const size_t isub = b.get_subgrid_index();
+      if (isub >= ntot) {
+        bad << " buffer-for-a-subgrid-that-does-not-exist(" << isub << ")";
+        return false;
+      }
+      if (b.size() > PHOTONBUFFER_SIZE / 2 && b.get_direction() != TRAVELDIRECTION_INSIDE)
+        ++S.noverflow; // statistics only: well filled hand-over buffers
+      for (uint_fast32_t i = 0; i < b.size() && bad.str().empty(); ++i) {
+        if (b.get_direction() != TRAVELDIRECTION_INSIDE) {
+          handover_oracle(*split._subgrids[isub], b[i], b.get_direction(), isub, E, bad);
+          ++dirhist[TravelDirections::output_to_input_direction(b.get_direction())];
+        }
+      }
+      return bad.str().empty();
+    };
+    auto after = [&](const PhotonBuffer &slot, uint_fast32_t nin) {
+      for (uint_fast32_t i = 0; i < nin; ++i) {
+        const unsigned pid = slot[i].get_scatter_counter();
+        if (pid >= fin.size()) {
+          bad << " packet-with-unknown-id-in-a-buffer";
+          return;
+        }
+        fin[pid].seen = true;
+        fin[pid].pos = slot[i].get_position();
+        fin[pid].tau_left = slot[i].get_target_optical_depth();
+        ++fin[pid].handovers;
+      }
+    };
+    if (!run.pump(before, after, bad))
+      break;
+  }
+  S.ntasks += run.ntasks;
+  S.npremature += run.npremature;
+  if (bad.str().empty()) {
+    if (run.ndone.value() != npk)
+      bad << " packets-lost-or-duplicated(" << phase << ",terminated=" << run.ndone.value() << ",launched=" << npk << ")";
+    if (!run.buffers.is_empty())
+      bad << " buffers-left-behind(" << phase << "," << run.buffers.get_number_of_active_buffers() << ")";
+  }
+  // ---- the same packets through the undivided block, packet by packet
+  double scmax = 0.;
+  for (int ax = 0; ax < 3; ++ax)
+    scmax = std::max(scmax, std::fabs(E.anchor[ax]) + E.sides[ax]);
+  for (size_t ip = 0; ip < all.size() && bad.str().empty(); ++ip) {
+    const PacketSpec &ps = all[ip];
+    const Outcome b = shoot(whole, ps, 0, E.box, E.per, nullptr, bad, E.sigmaH, E.sigmaHe);
+    std::ostringstream idt;
+    idt << "(" << phase << ",packet=" << ip << ",kind=" << ps.kind << ")";
+    if (!fin[ip].seen) {
+      bad << " packet-never-traversed" << idt.str();
+      break;
+    }
+    if (b.absorbed < 0) {
+      bad << " packet-does-not-terminate" << idt.str();
+      break;
+    }
+    const int a_abs = fin[ip].tau_left <= 0. ? 1 : 0;
+    if (a_abs != b.absorbed) {
+      bad << " absorption/escape-decision-differs(split=" << a_abs << ",whole=" << b.absorbed << ")" << idt.str();
+      break;
+    }
+    const long hand = std::max(fin[ip].handovers, b.handovers);
+    for (int ax = 0; ax < 3; ++ax) {
+      double dpos = std::fabs(fin[ip].pos[ax] - b.pos[ax]);
+      if (E.per[ax])
+        dpos = std::min(dpos, std::fabs(dpos - E.sides[ax]));
+      const double scale = std::fabs(E.anchor[ax]) + E.sides[ax];
+      S.maxpos = std::max(S.maxpos, dpos / scale);
+      // round-off accumulates with every hand-over (tau_target - tau_done is re-rounded): 1e-10 per 1000 hand-overs
+      if (!(dpos <= 1.e-10 * scale * (1. + hand / 1000.)))
+        bad << " final-position-differs(axis=" << ax << ",split=" << fin[ip].pos[ax] << ",whole=" << b.pos[ax] << ")" << idt.str();
+    }
+    const double dt = std::fabs(fin[ip].tau_left - b.tau_left);
+    S.maxtau = std::max(S.maxtau, dt / ps.tau);
+    // a position error of relative size eps shifts the optical depth by eps * (optical depth across the box scale)
+    if (!(dt <= 1.e-10 * (ps.tau + 2. * E.sigmaH * scmax) * (1. + hand / 1000.)))
+      bad << " remaining-optical-depth-differs(split=" << fin[ip].tau_left << ",whole=" << b.tau_left << ")" << idt.str();
+    S.nabs += b.absorbed;
+    S.nesc += 1 - b.absorbed;
+    S.nhand += fin[ip].handovers;
+  }
+  // ---- fold the copies (real code) and compare the estimators of every global cell
+  if (with_copies)
+    split.update_original_counters();
+  if (!bad.str().empty())
+    return;
+  DensitySubGrid &W = *whole._subgrids[0];
+  for (size_t s = 0; s < n && bad.str().empty(); ++s) {
+    const CoordinateVector< int_fast32_t > p = split.get_grid_position(s);
+    DensitySubGrid &G = *split._subgrids[s];
+    for (long i = 0; i < E.m[0]; ++i)
+      for (long j = 0; j < E.m[1]; ++j)
+        for (long k = 0; k < E.m[2]; ++k) {
+          const long li = i * E.m[1] * E.m[2] + j * E.m[2] + k;
+          const long gi = (p[0] * E.m[0] + i) * E.nc[1] * E.nc[2] + (p[1] * E.m[1] + j) * E.nc[2] + (p[2] * E.m[2] + k);
+          const IonizationVariables &x = G._ionization_variables[li];
+          const IonizationVariables &y = W._ionization_variables[gi];
+          if (x.get_number_density() != y.get_number_density() ||
+              x.get_ionic_fraction(ION_H_n) != y.get_ionic_fraction(ION_H_n)) {
+            bad << " harness-error:density-fields-differ";
+            return;
+          }
+          ++S.ncellcmp;
+          for (int q = 0; q < NUMBER_OF_IONNAMES + NUMBER_OF_HEATINGTERMS; ++q) {
+            const double u = q < NUMBER_OF_IONNAMES ? x.get_mean_intensity(q) : x.get_heating(q - NUMBER_OF_IONNAMES);
+            const double v = q < NUMBER_OF_IONNAMES ? y.get_mean_intensity(q) : y.get_heating(q - NUMBER_OF_IONNAMES);
+            // floor: one part in 1e12 of the contribution of a single packet crossing the cell
+            const double unit = (q < NUMBER_OF_IONNAMES ? 1. : 4.e15) * E.sigmaH * E.hmean;
+            const double d = std::fabs(u - v);
+            if (q == 0 && (u != 0. || v != 0.))
+              ++S.nnonzero;
+            if (d > 0.)
+              S.maxrel = std::max(S.maxrel, d / (std::max(std::fabs(u), std::fabs(v)) + 1.e-2 * unit));
+            if (!(d <= 1.e-10 * std::max(std::fabs(u), std::fabs(v)) + 1.e-12 * unit)) {
+              bad << " per-cell-estimator-differs(" << phase << ",subgrid=" << s << ",cell=" << i << "," << j << "," << k
+                  << ",quantity=" << q << ",split=" << u << ",whole=" << v << ")";
+              return;
+            }
+          }
+        }
+  }
+}
+
 static int trace_mode() {
   omp_set_num_threads(1);
   std::string line;
@@ -583,40 +1019,42 @@ static int trace_mode() {
     std::ostringstream bad;
 
     // ---- the box: dyadic (cell size a power of two, anchor a multiple of it) or generic
-    CoordinateVector<> anchor, sides, cell;
+    TraceEnv E;
     if (boxkind == 0) {
       const double h = std::ldexp(1., int(rng.below(5)) - 2);
       for (int ax = 0; ax < 3; ++ax) {
-        cell[ax] = h;
-        sides[ax] = h * nc[ax];
-        anchor[ax] = h * (long(rng.below(9)) - 4) * nc[ax];
+        E.cell[ax] = h;
+        E.sides[ax] = h * nc[ax];
+        E.anchor[ax] = h * (long(rng.below(9)) - 4) * nc[ax];
       }
     } else {
       for (int ax = 0; ax < 3; ++ax) {
-        sides[ax] = 0.3 + 2.7 * rng.uni();
-        anchor[ax] = (rng.uni() - 0.5) * 4.;
-        cell[ax] = sides[ax] / nc[ax];
+        E.sides[ax] = 0.3 + 2.7 * rng.uni();
+        E.anchor[ax] = (rng.uni() - 0.5) * 4.;
+        E.cell[ax] = E.sides[ax] / nc[ax];
       }
     }
-    const Box<> box(anchor, sides);
+    E.box = Box<>(E.anchor, E.sides);
+    E.per = per;
+    E.nc = nc;
+    E.m = m;
     const bool anyper = per[0] || per[1] || per[2];
 
     HashDensity dens;
     dens.seed = seed * 7919 + 13;
-    dens.anchor = anchor;
-    dens.cell = cell;
+    dens.anchor = E.anchor;
+    dens.cell = E.cell;
     dens.allow_empty = !anyper;
     dens.nscale = 1.;
-    const double hmean = (cell[0] + cell[1] + cell[2]) / 3.;
+    E.hmean = (E.cell[0] + E.cell[1] + E.cell[2]) / 3.;
     const double ncmean = (nc[0] + nc[1] + nc[2]) / 3.;
     // optical depth of ~0.15 per cell .. a few per box
-    const double sigmaH = anyper ? (0.3 + 0.7 * rng.uni()) / hmean
-                                 : (0.05 + 0.6 * rng.uni()) / hmean / std::max(1., ncmean / 6.);
-    const double sigmaHe = 0.3 * sigmaH;
+    E.sigmaH = anyper ? (0.3 + 0.7 * rng.uni()) / E.hmean : (0.05 + 0.6 * rng.uni()) / E.hmean / std::max(1., ncmean / 6.);
+    E.sigmaHe = 0.3 * E.sigmaH;
 
-    Creator split(box, nc, ns, per);
+    Creator split(E.box, nc, ns, per);
     split.initialize(dens);
-    Creator whole(box, nc, CoordinateVector< int_fast32_t >(1, 1, 1), per);
+    Creator whole(E.box, nc, CoordinateVector< int_fast32_t >(1, 1, 1), per);
     whole.initialize(dens);
 
     // ---- copies of the split grid
@@ -643,126 +1081,94 @@ static int trace_mode() {
       split._subgrids[i]->reset_intensities();
     whole._subgrids[0]->reset_intensities();
 
-    // ---- packets
+    // ---- packets of the two steps: rounds of scattered packets (buffers get recycled with all kinds of
+    //      directions), then a beam in two batches that overflows a hand-over buffer
     std::vector< long > dirhist(TRAVELDIRECTION_NUMBER, 0);
-    long nabs = 0, nesc = 0, nhand = 0, nkind[4] = {0, 0, 0, 0};
-    double maxpos = 0., maxtau = 0.;
-    for (long ip = 0; ip < npk && bad.str().empty(); ++ip) {
-      PacketSpec ps;
-      int kind = int(rng.below(boxkind == 0 ? 4 : 2));
-      if (kind == 3)
-        kind = 2;
-      ps.kind = kind;
-      if (kind == 0) {
-        for (int ax = 0; ax < 3; ++ax)
-          ps.pos[ax] = anchor[ax] + sides[ax] * rng.uni();
-        const double ct = 2. * rng.uni() - 1., st = std::sqrt(std::max(0., 1. - ct * ct)), ph = 2. * M_PI * rng.uni();
-        ps.dir = CoordinateVector<>(st * std::cos(ph), st * std::sin(ph), ct);
-      } else if (kind == 1) {
-        for (int ax = 0; ax < 3; ++ax)
-          ps.pos[ax] = anchor[ax] + sides[ax] * rng.uni();
-        ps.dir = CoordinateVector<>(0.);
-        ps.dir[rng.below(3)] = rng.below(2) ? 1. : -1.;
-      } else {
-        // lattice packets in a dyadic box: start at a cell centre or a (lower) cell corner, direction with
-        // dyadic components, so that edges and corners of cells and subgrids are hit exactly
-        const bool corner = rng.below(3) == 0;
-        for (int ax = 0; ax < 3; ++ax)
-          ps.pos[ax] = anchor[ax] + cell[ax] * (double(rng.below(nc[ax])) + (corner ? 0. : 0.5));
-        static const double comps[7] = {-1., 1., -1., 1., 0., 0.5, -2.};
-        do {
-          for (int ax = 0; ax < 3; ++ax)
-            ps.dir[ax] = comps[rng.below(7)];
-        } while (ps.dir[0] == 0. && ps.dir[1] == 0. && ps.dir[2] == 0.);
+    long nkind[4] = {0, 0, 0, 0};
+    PhaseStats S;
+    std::memset(&S, 0, sizeof(S));
+    std::vector< std::vector< PacketSpec > > rounds[2];
+    std::vector< uint64_t > picks[2];
+    for (int ph = 0; ph < 2; ++ph) {
+      const long nscatter = npk / 2;
+      const long per_round = std::max(50l, nscatter / 3);
+      long done = 0;
+      while (done < nscatter) {
+        std::vector< PacketSpec > r;
+        for (long k = 0; k < per_round && done < nscatter; ++k, ++done)
+          r.push_back(draw_packet(rng, E, boxkind));
+        rounds[ph].push_back(r);
       }
-      ++nkind[kind];
-      ps.tau = -std::log(1. - rng.uni()) * (rng.below(4) == 0 ? 4. : 1.) + 1.e-3;
-      const uint64_t pick = rng.next();
-
-      const Outcome a = shoot(split, ps, pick, box, per, &dirhist, bad, sigmaH, sigmaHe);
-      const Outcome b = shoot(whole, ps, 0, box, per, nullptr, bad, sigmaH, sigmaHe);
-      std::ostringstream id;
-      id << "(packet=" << ip << ",kind=" << kind << ")";
-      if (a.absorbed < 0 || b.absorbed < 0) {
-        if (bad.str().empty())
-          bad << " packet-does-not-terminate" << id.str();
-        break;
-      }
-      if (a.absorbed != b.absorbed) {
-        bad << " absorption/escape-decision-differs(split=" << a.absorbed << ",whole=" << b.absorbed << ")" << id.str();
-        break;
-      }
-      for (int ax = 0; ax < 3; ++ax) {
-        double dpos = std::fabs(a.pos[ax] - b.pos[ax]);
-        if (per[ax])
-          dpos = std::min(dpos, std::fabs(dpos - sides[ax]));
-        const double scale = std::fabs(anchor[ax]) + sides[ax];
-        maxpos = std::max(maxpos, dpos / scale);
-        // round-off accumulates with every hand-over (tau_target - tau_done is re-rounded): 1e-10 per 1000 hand-overs
-        if (!(dpos <= 1.e-10 * scale * (1. + a.handovers / 1000.)))
-          bad << " final-position-differs(axis=" << ax << ",split=" << a.pos[ax] << ",whole=" << b.pos[ax] << ")" << id.str();
-      }
-      {
-        const double dt = std::fabs(a.tau_left - b.tau_left);
-        maxtau = std::max(maxtau, dt / ps.tau);
-        // a position error of relative size eps shifts the optical depth by eps * (optical depth across the box scale)
-        double scmax = 0.;
-        for (int ax = 0; ax < 3; ++ax)
-          scmax = std::max(scmax, std::fabs(anchor[ax]) + sides[ax]);
-        if (!(dt <= 1.e-10 * (ps.tau + 2. * sigmaH * scmax) * (1. + a.handovers / 1000.)))
-          bad << " remaining-optical-depth-differs(split=" << a.tau_left << ",whole=" << b.tau_left << ")" << id.str();
-      }
-      nabs += a.absorbed;
-      nesc += 1 - a.absorbed;
-      nhand += a.handovers;
+      // the beam: 500 packets from one subgrid through (mostly) one face, injected together: the hand-over
+      // buffer of that face overflows (PHOTONBUFFER_SIZE = 200)
+      std::vector< PacketSpec > beam;
+      draw_beam(rng, E, ns, 500, beam);
+      rounds[ph].push_back(beam);
+      for (auto &r : rounds[ph])
+        for (auto &ps : r) {
+          ++nkind[ps.kind];
+          picks[ph].push_back(rng.next());
+        }
     }
 
-    // ---- fold the copies (real code) and compare the estimators of every global cell
-    if (maxlevel > 0)
-      split.update_original_counters();
-    double maxrel = 0.;
-    long ncellcmp = 0, nnonzero = 0;
+    // ---- step 1
+    run_phase(split, whole, E, rounds[0], picks[0], maxlevel > 0, dirhist, S, bad, "step1");
+
+    // ---- between the steps: the state of the ORIGINALS changes (density, neutral fractions, temperature), the
+    //      real update_copy_properties() pushes it to the copies
     if (bad.str().empty()) {
       DensitySubGrid &W = *whole._subgrids[0];
-      for (size_t s = 0; s < n && bad.str().empty(); ++s) {
+      for (size_t s = 0; s < n; ++s) {
         const CoordinateVector< int_fast32_t > p = split.get_grid_position(s);
-        DensitySubGrid &S = *split._subgrids[s];
         for (long i = 0; i < m[0]; ++i)
           for (long j = 0; j < m[1]; ++j)
             for (long k = 0; k < m[2]; ++k) {
               const long li = i * m[1] * m[2] + j * m[2] + k;
               const long gi = (p[0] * m[0] + i) * nc[1] * nc[2] + (p[1] * m[1] + j) * nc[2] + (p[2] * m[2] + k);
-              const IonizationVariables &x = S._ionization_variables[li];
-              const IonizationVariables &y = W._ionization_variables[gi];
-              if (x.get_number_density() != y.get_number_density() ||
-                  x.get_ionic_fraction(ION_H_n) != y.get_ionic_fraction(ION_H_n)) {
-                bad << " harness-error:density-fields-differ";
-                break;
-              }
-              ++ncellcmp;
-              for (int q = 0; q < NUMBER_OF_IONNAMES + NUMBER_OF_HEATINGTERMS; ++q) {
-                const double u = q < NUMBER_OF_IONNAMES ? x.get_mean_intensity(q) : x.get_heating(q - NUMBER_OF_IONNAMES);
-                const double v = q < NUMBER_OF_IONNAMES ? y.get_mean_intensity(q) : y.get_heating(q - NUMBER_OF_IONNAMES);
-                // floor: one part in 1e12 of the contribution of a single packet crossing the cell
-                const double unit = (q < NUMBER_OF_IONNAMES ? 1. : 4.e15) * sigmaH * hmean;
-                const double d = std::fabs(u - v);
-                if (q == 0 && (u != 0. || v != 0.))
-                  ++nnonzero;
-                if (d > 0.)
-                  maxrel = std::max(maxrel, d / (std::max(std::fabs(u), std::fabs(v)) + 1.e-2 * unit));
-                if (!(d <= 1.e-10 * std::max(std::fabs(u), std::fabs(v)) + 1.e-12 * unit)) {
-                  bad << " per-cell-estimator-differs(subgrid=" << s << ",cell=" << i << "," << j << "," << k << ",quantity=" << q
-                      << ",split=" << u << ",whole=" << v << ")";
-                  break;
-                }
-              }
+              evolve_cell(seed + 77, gi, split._subgrids[s]->_ionization_variables[li], anyper);
+              evolve_cell(seed + 77, gi, W._ionization_variables[gi], anyper);
             }
+        split._subgrids[s]->reset_intensities();
+      }
+      W.reset_intensities();
+      split.update_copy_properties();
+      // oracle: every copy now holds what a traversal reads from its original, and empty counters
+      for (size_t c = n; c < split._subgrids.size() && bad.str().empty(); ++c) {
+        const size_t o = split._originals[c - n];
+        const long tot = m[0] * m[1] * m[2];
+        for (long li = 0; li < tot; ++li) {
+          const IonizationVariables &x = split._subgrids[c]->_ionization_variables[li];
+          const IonizationVariables &y = split._subgrids[o]->_ionization_variables[li];
+          bool same = x.get_number_density() == y.get_number_density();
+          for (int ion = 0; ion < NUMBER_OF_IONNAMES; ++ion)
+            same = same && x.get_ionic_fraction(ion) == y.get_ionic_fraction(ion);
+          if (!same) {
+            bad << " copy-differs-from-its-original-after-update_copy_properties(copy=" << c << ",original=" << o << ",cell=" << li << ")";
+            break;
+          }
+          bool empty = true;
+          for (int ion = 0; ion < NUMBER_OF_IONNAMES; ++ion)
+            empty = empty && x.get_mean_intensity(ion) == 0.;
+          if (!empty) {
+            bad << " copy-counters-not-reset(copy=" << c << ")";
+            break;
+          }
+        }
       }
     }
-    std::cout << "trace packets=" << npk << " absorbed=" << nabs << " escaped=" << nesc << " handovers=" << nhand
-              << " copies=" << ncopies << " kinds=" << nkind[0] << "," << nkind[1] << "," << nkind[2]
-              << " cells=" << ncellcmp << " nonzero=" << nnonzero << " maxrel=" << maxrel << " maxpos=" << maxpos
-              << " maxtau=" << maxtau << " dirs=";
+    // ---- step 2, through the updated copies
+    if (bad.str().empty())
+      run_phase(split, whole, E, rounds[1], picks[1], maxlevel > 0, dirhist, S, bad, "step2");
+
+    long total = 0;
+    for (int ph = 0; ph < 2; ++ph)
+      for (auto &r : rounds[ph])
+        total += r.size();
+    std::cout << "trace packets=" << total << " absorbed=" << S.nabs << " escaped=" << S.nesc << " handovers=" << S.nhand
+              << " copies=" << ncopies << " kinds=" << nkind[0] << "," << nkind[1] << "," << nkind[2] << "," << nkind[3]
+              << " tasks=" << S.ntasks << " premature=" << S.npremature << " fullbuffers=" << S.noverflow
+              << " cells=" << S.ncellcmp << " nonzero=" << S.nnonzero << " maxrel=" << S.maxrel << " maxpos=" << S.maxpos
+              << " maxtau=" << S.maxtau << " dirs=";
     for (int d = 0; d < TRAVELDIRECTION_NUMBER; ++d)
       std::cout << (d ? "," : "") << dirhist[d];
     std::cout << "\n";
